@@ -42,6 +42,19 @@ AvgTol(rows, num, den, scale) ==
          IF Len(keep) = Len(rows) THEN [ok |-> TRUE, mesh |-> [c \in 1..nc |-> (ColSum(rows, c) * scale) \div Len(rows)]]
          ELSE AvgTol(keep, num, den, scale)
 
+\* the rows that remain when the loop stops, and whether some comparison sits exactly on the tolerance (a float evaluation of a
+\* mean that is not a binary fraction could then decide differently: such cases are not enumerated)
+OnEdge(rows, r, c, num, den) == den * AbsI(Len(rows) * r[c] - ColSum(rows, c)) = num * ColSum(rows, c)
+RECURSIVE KeptRows(_, _, _)
+KeptRows(rows, num, den) ==
+    LET keep == SelectSeq(rows, LAMBDA r : \A c \in 1..Len(r) : ~OffMean(rows, r, c, num, den))
+    IN IF rows = <<>> \/ Len(keep) = Len(rows) THEN rows ELSE KeptRows(keep, num, den)
+RECURSIVE Borderline(_, _, _)
+Borderline(rows, num, den) ==
+    LET keep == SelectSeq(rows, LAMBDA r : \A c \in 1..Len(r) : ~OffMean(rows, r, c, num, den))
+    IN \/ \E i \in 1..Len(rows) : \E c \in 1..Len(rows[i]) : OnEdge(rows, rows[i], c, num, den)
+       \/ (rows # <<>> /\ Len(keep) # Len(rows) /\ Borderline(keep, num, den))
+
 (* ---- _decuspAxialMesh; fuel, ctrl = sets of <<bottom, top>> spans, common = set of points ---- *)
 Bottoms(spans) == {s[1] : s \in spans}
 Tops(spans)    == {s[2] : s \in spans}
